@@ -57,19 +57,19 @@ impl<const A: usize, const L: usize> DynMarket for Market<A, L> {
         Market::get_time(self)
     }
     fn set_time(&mut self, t: u64) {
-        Market::set_time(self, t)
+        let _ = Market::set_time(self, t);
     }
     fn enable_trading(&mut self) {
-        Market::enable_trading(self)
+        let _ = Market::enable_trading(self);
     }
     fn disable_trading(&mut self) {
-        Market::disable_trading(self)
+        let _ = Market::disable_trading(self);
     }
     fn get_trade_vols(&self) -> Vec<u32> {
         Market::get_trade_vols(self).to_vec()
     }
     fn reset_trade_vols(&mut self) {
-        Market::reset_trade_vols(self)
+        let _ = Market::reset_trade_vols(self);
     }
     fn bid_vols(&self) -> Vec<u32> {
         Market::bid_vols(self).to_vec()
@@ -114,13 +114,13 @@ impl<const A: usize, const L: usize> DynMarket for Market<A, L> {
         Market::create_and_place_order(self, a, side_of(bid), vol, trader, price).map_err(|e| e.to_string())
     }
     fn place_order(&mut self, id: (usize, usize)) {
-        Market::place_order(self, id)
+        let _ = Market::place_order(self, id);
     }
     fn cancel_order(&mut self, id: (usize, usize)) {
-        Market::cancel_order(self, id)
+        let _ = Market::cancel_order(self, id);
     }
     fn modify_order(&mut self, id: (usize, usize), price: Option<u32>, vol: Option<u32>) {
-        Market::modify_order(self, id, price, vol)
+        let _ = Market::modify_order(self, id, price, vol);
     }
     fn process_event(&mut self, a: usize, ev: &Ev) {
         let e = match *ev {
@@ -128,7 +128,7 @@ impl<const A: usize, const L: usize> DynMarket for Market<A, L> {
             Ev::Cancel(i) => Event::Cancellation { order_id: (a, i) },
             Ev::Modify(i, p, v) => Event::Modify { order_id: (a, i), new_price: p, new_vol: v },
         };
-        Market::process_event(self, e)
+        let _ = Market::process_event(self, e);
     }
     fn to_json(&self, pretty: bool) -> String {
         if pretty {
